@@ -329,7 +329,8 @@ def run(ctx):
                 continue
             specs = [[[text, {"fg": 31, "bold": True}]],
                      [[text[:1], {"fg": 31, "bold": True}], [text[1:], {"fg": 31, "bg": 44}]],
-                     [["", {}], [text, {"underline": True}]]]
+                     [["", {}], [text, {"underline": True}]],
+                     [[text[:1], {"fg": 32, "bold": True}], ["", {"bg": 45}], [text[1:], {"fg": 32, "bold": True}]]]
             for spec in specs:
                 for m, a, kw in calls_for(text):
                     run_case(ctx, {"spec": spec, "method": m, "args": list(a), "kwargs": kw})
